@@ -27,7 +27,7 @@ RULE = ('each run = generated tree + Manifest layout + 1-8 simultaneous storage 
         'recording handler and through `gemato verify --keep-going`; non-trivial = the model found at '
         'least two offending paths or a structural error, outside don\'t-care zones; distinct = distinct '
         'seam event-log digest')
-PLAN = {'quick': {'n': 3200, 'budget_s': 55, 'block': 40},
+PLAN = {'quick': {'n': 10000, 'budget_s': 90, 'block': 40},
         'thorough': {'n': 120000, 'budget_s': 900, 'block': 200}}
 ASSUMPTIONS = ['M-verify (sim/model.py) defines the offending set; files that the mtime shortcut may skip are optional members']
 
